@@ -142,7 +142,23 @@ def classify(e, scope, depth=0, seen=None):
             return Cls("code", "buffer returned by a JS scope writer")
         if m in ("unwrap", "unwrap_or", "unwrap_or_else", "expect"):
             return classify(e["recv"], scope, depth + 1, seen)
-        if m in ("join", "collect", "map", "iter"):
+        if m == "map" and e["args"] and e["args"][0].get("k") == "closure":
+            # the elements are whatever the mapping closure returns
+            clo = e["args"][0]
+            b = clo["body"]
+            tail = b
+            while tail.get("k") == "block" and tail["stmts"] and tail["stmts"][-1].get("k") == "expr":
+                tail = tail["stmts"][-1]["e"]
+            params = [x for pp in clo["params"] for x, _p in sir.pat_bindings(pp)]
+            if root_name(tail) in params:
+                # the closure only reshapes its element (`|x| x.to_string()`): the elements are those of the receiver
+                return classify(e["recv"], scope, depth + 1, seen)
+            return classify_block(b, scope, depth, seen) if b.get("k") == "block" else classify(b, scope, depth + 1, seen)
+        if m == "map" and e["args"] and e["args"][0].get("k") == "path":
+            nm = e["args"][0]["segs"][-1]
+            if nm in SANITISERS:
+                return Cls("safe", SANITISERS[nm])
+        if m in ("join", "collect", "map", "iter", "into_iter", "cloned", "copied", "rev"):
             return classify(e["recv"], scope, depth + 1, seen)
         return classify_call_result(m, e, scope, depth, seen)
     if k == "try":
